@@ -27,7 +27,7 @@ func init() {
 				Rule: "exhaustive enumeration: Partition: every keep/drop mask for n <= 16 (20 thorough), on exact-size slices and on windows of a larger guard-filled buffer; Rotate: every n <= 400 (1300) and every k in [-n-2, n+2] plus far out-of-range k; every function with counts/offsets near the ends of the int range (MaxInt, MaxInt-1, 2^62, 2^31, MinInt); Chunks/Batches: every len <= 40 (96) x every n in [-1, len+3], on windows with spare capacity; Head/Tail: every len <= 12 x n in [0, len+3]; Stripe: row-length vectors over {0..3}^<=4 x i in [0,4]; At/PtrAt: every len <= 12 x i in [-len-3, len+3]. " +
 					"Oracles: stable filter + permutation + append-does-not-clobber for Partition; element i moves to (i+k) mod n and out-of-range k panics for Rotate; concatenation by address, documented lengths/counts, append-does-not-clobber-a-later-subslice, no panic for allowed arguments (incl. empty slice) for Chunks/Batches; direct indexing for the rest. " +
 					"distinct = enumerated argument tuples; non-trivial = the call had a non-empty slice argument",
-				Required:     []string{"partition_masks", "rotate_cases", "chunks_cases", "batches_cases", "batches_of_empty", "head_tail_cases", "stripe_cases", "at_ptrat_cases", "expected_panics_seen", "extreme_argument_cases"},
+				Required:     []string{"partition_masks", "rotate_cases", "chunks_cases", "batches_cases", "batches_of_empty", "head_tail_cases", "stripe_cases", "at_ptrat_cases", "expected_panics_seen", "extreme_argument_cases", "element_type_checks"},
 				Exhaustive:   true,
 				Assumptions:  []string{"'capacity-clipped' is read as: appending to a returned subslice cannot overwrite an element outside it (so a single whole-input chunk may keep the input's capacity)"},
 				CoverPkgs:    []string{"github.com/creachadair/mds/slice"},
@@ -456,6 +456,69 @@ func runC17(c *fw.Ctx) {
 			c.Fail(map[string]any{"func": "At", "arg": "nil"}, "At(nil, 0) did not panic")
 		}
 		c.Add("nil_slice_checks", 1)
+	}
+	if c.Block == 1%c.NBlocks && c.Begin(idx+60) {
+		// other element types: zero-size elements, strings, pointers, large structs
+		ok, pv, stack := fw.Try(func() {
+			type big struct {
+				ID  int
+				Pad [40]int64
+			}
+			for n := 0; n <= 9; n++ {
+				z := make([]struct{}, n)
+				strs := make([]string, n)
+				ptrs := make([]*int, n)
+				bigs := make([]big, n)
+				for i := 0; i < n; i++ {
+					strs[i] = fmt.Sprint("s", i)
+					v := i
+					ptrs[i] = &v
+					bigs[i].ID = i
+					bigs[i].Pad[39] = int64(i)
+				}
+				for k := -n; k <= n; k++ {
+					slice.Rotate(z, k)
+					s2 := append([]string(nil), strs...)
+					p2 := append([]*int(nil), ptrs...)
+					b2 := append([]big(nil), bigs...)
+					slice.Rotate(s2, k)
+					slice.Rotate(p2, k)
+					slice.Rotate(b2, k)
+					for i := 0; i < n; i++ {
+						to := ((i+k)%n + n) % n
+						if s2[to] != strs[i] || p2[to] != ptrs[i] || b2[to] != bigs[i] {
+							c.Fail(map[string]any{"func": "Rotate", "n": n, "k": k, "element_types": "string, *int, 328-byte struct"}, "Rotate moved element %d to the wrong place", i)
+							return
+						}
+					}
+				}
+				cnt := 0
+				kept := slice.Partition(z, func(struct{}) bool { cnt++; return cnt%2 == 1 })
+				if len(kept) != (n+1)/2 {
+					c.Fail(map[string]any{"func": "Partition", "n": n, "element_type": "struct{}"}, "Partition kept %d of %d zero-size elements, the predicate accepted %d", len(kept), n, (n+1)/2)
+					return
+				}
+				for m := 0; m <= n+1; m++ {
+					tot := 0
+					for _, ch := range slice.Chunks(z, m) {
+						tot += len(ch)
+					}
+					tb := 0
+					for _, b := range slice.Batches(z, m) {
+						tb += len(b)
+					}
+					if tot != n || (m > 0 && tb != n) {
+						c.Fail(map[string]any{"func": "Chunks/Batches", "n": n, "m": m, "element_type": "struct{}"}, "Chunks/Batches of zero-size elements cover %d / %d of %d", tot, tb, n)
+						return
+					}
+				}
+				c.Step()
+			}
+		})
+		if !ok {
+			c.FailKind("panic", map[string]any{"element_types": "struct{}, string, *int, large struct"}, "panic with a non-int element type: %v\n%s", pv, stack)
+		}
+		c.Add("element_type_checks", 1)
 	}
 	idx += 100
 	// Head/Tail, At/PtrAt
